@@ -2,6 +2,7 @@ import Driver.Util
 import Driver.C17
 import Driver.Tzdb
 import TemporalModel.Model.CalGlue
+import TemporalModel.Model.Format
 import TemporalModel.Spec.CalLaws
 import TemporalModel.Spec.Grammar
 namespace Driver
@@ -131,6 +132,64 @@ def handleCal (toks : List String) : Option String :=
                  plainDateFromPartial ⟨p.year, p.month, p.monthCode, p.day, p.era.isSome, p.eraYear⟩ (some ov)
                else plainDateFromPartialCal cal p (some ov))
       pure r.render))
+  | ["cal_with", cal, y, m, d, era, ey, yr, mo, c, dd, ov] => do
+    let cal ← calId? cal; let y ← int? y; let m ← int? m; let d ← int? d
+    let p ← calPartial? [era, ey, yr, mo, c, dd]
+    let ov ← (if ov == "-" then some none else (Overflow.ofName? ov).map some)
+    some (renderOut (do
+      let iso ← isoOf y m d
+      let p ← p
+      let r ← (if cal = .iso8601 then
+                 plainDateWith iso ⟨p.year, p.month, p.monthCode, p.day, p.era.isSome, p.eraYear⟩ ov
+               else match fields cal iso with
+                 | some f => plainDateWithCal cal f p ov
+                 | none => Out.err .assert)
+      pure r.render))
+  | ["cal_withid_spec", _, y, m, d] => do
+    -- the law, for every calendar: a date updated with its own day is the same date
+    let y ← int? y; let m ← int? m; let d ← int? d
+    some (renderOut (do let iso ← isoOf y m d; pure iso.render))
+  | ["cal_withid", cal, y, m, d] => do
+    let cal ← calId? cal; let y ← int? y; let m ← int? m; let d ← int? d
+    some (match isoOf y m d with
+      | .err k => "err " ++ k.name
+      | .panic => "panic"
+      | .ok iso =>
+        if cal = .iso8601 then
+          (plainDateWith iso ⟨none, none, none, some iso.day, false, none⟩ (some .reject)).render IsoDate.render
+        else match fields cal iso with
+          | some f =>
+            -- a failure is marked with the circumstance of the date, as the harness does
+            match plainDateWithCal cal f ⟨none, none, none, none, none, some f.day⟩ (some .reject) with
+            | .ok r => "ok " ++ r.render
+            | .err k => "err " ++ k.name ++ (if f.year ≤ 0 then "@y<=0" else "")
+            | .panic => "panic"
+          | none => "ok " ++ iso.render)
+  | ["cal_toym", cal, y, m, d] => do
+    let cal ← calId? cal; let y ← int? y; let m ← int? m; let d ← int? d
+    some (renderOut (do
+      let iso ← isoOf y m d
+      if cal = .iso8601 then do
+        let r ← dateToYearMonth iso
+        pure (String.ofList (Fmt.yearMonth r "iso8601" .never))
+      else match fields cal iso with
+        | some f => do let r ← dateToYearMonthCal cal f; pure (String.ofList (Fmt.date r))
+        | none => Out.err .assert))
+  | ["cal_toymc", _, y, m, d] => do
+    let y ← int? y; let m ← int? m; let d ← int? d
+    some (renderOut (do let _ ← isoOf y m d; pure "first-of-month"))
+  | ["cal_ymfrom", cal, era, ey, y, m, c, d, ov] => do
+    let cal ← calId? cal
+    let p ← calPartial? [era, ey, y, m, c, d]
+    let ov ← Overflow.ofName? ov
+    some (renderOut (do
+      let p ← p
+      if cal = .iso8601 then do
+        let r ← yearMonthFromPartial ⟨p.year, p.month, p.monthCode, p.day, p.era.isSome, p.eraYear⟩ ov
+        pure (String.ofList (Fmt.yearMonth r "iso8601" .never))
+      else do
+        let r ← yearMonthFromPartialCal cal p ov
+        pure (String.ofList (Fmt.date r))))
   | ["cal_res", cal, era, ey, y, m, c, d] => do
     let cal ← calId? cal
     let p ← calPartial? [era, ey, y, m, c, d]
